@@ -1,9 +1,10 @@
-(* C03, bytecode level, the failing direction: an evaluation error of the interpreter is the same error of
-   the VM - for expressions without calls.  A folded constant never fails at run time. *)
+(* C03, bytecode level, the failing direction (1): an evaluation error of the interpreter is the same error of
+   the VM - expressions and macro calls, one fuel level up, given the statements of the level below
+   (L2ErrStmt.v closes the induction).  A folded constant never fails at run time. *)
 From MJ Require Import Common.Base Lang.Syntax Lang.Meta Lang.Interp.
 From MJ Require Import C04.Model C04.Spec C04.Proofs C03.Proofs.
 From MJ Require Import L2.Instr L2.Compile L2.Vm L2.Simulation.
-From MJ Require Import C03.L2Pos C03.L2Base C03.L2Inv C03.L2Expr C03.L2Stmt C03.L2Wf C03.L2Proofs.
+From MJ Require Import C03.L2Pos C03.L2Base C03.L2Inv C03.L2Hdl C03.L2Expr C03.L2Stmt C03.L2Wf C03.L2Proofs.
 Local Open Scope nat_scope.
 
 (* ---- a folded constant never fails at run time, whatever the fuel ---- *)
@@ -129,7 +130,7 @@ Proof.
 Qed.
 End FoldNoErr.
 
-Section Err.
+Section ErrAll.
 Variable c : cfg.
 Variable C : list instr.
 Hypothesis Hcfg : cfg_ok C c.
@@ -139,52 +140,87 @@ Notation star := (starO c C).
 Notation star_step := (starO_step c C).
 Notation star_trans := (C03.L2Base.star_trans c C).
 Notation star_one := (C03.L2Base.star_one c C).
+Notation star_eq := (C03.L2Base.star_eq c C).
 Notation step_at := (C03.L2Base.step_at c C).
 Notation Inv := (L2.Simulation.Inv C).
+Notation vok := (L2.Simulation.vok C).
+Notation kvok := (L2.Simulation.kvok C).
 Notation errs := (L2.Simulation.errs c C).
+
+Notation seq_sim := (C03.L2Expr.seq_sim c C).
+Notation kw_dyn_sim := (C03.L2Expr.kw_dyn_sim c C).
+Notation static_kw_eval := (C03.L2Expr.static_kw_eval c).
+Notation split_kwargs_plain := (C03.L2Expr.split_kwargs_plain C).
+Notation chain_sim := (C03.L2Expr.chain_sim c C).
+Notation emit_compare_sim := (C03.L2Expr.emit_compare_sim c C).
+Notation args_sim := (C03.L2Expr.args_sim c C).
 
 Lemma errs_trans a b k : star a b -> errs b k -> errs a k.
 Proof. intros S (σ' & S' & H). exists σ'. split; [eapply star_trans; eauto|exact H]. Qed.
 Lemma errs_here σ k : step c C σ = Err k -> errs σ k.
 Proof. intros H. exists σ. split; [constructor|left; exact H]. Qed.
 
+Ltac at_instr H := rewrite (step_at _ _ _ _ _ _ _ _ _ (code_at_head _ _ _ _ H)); cbn [exec_instr v_stk v_st v_esc].
+Ltac vmsimp := cbn [bind next goto v_pc v_stk v_st v_esc v_escs v_caps v_iters v_calls].
+
+(* an evaluation error is a VM error of the same kind: all expressions *)
 Definition err_expr (fuel : nat) : Prop :=
-  forall esc e, l2_expr e = true -> pure e = true -> forall s k, eval c fuel esc s e = Err k -> Inv s ->
+  forall esc e, l2_expr e = true -> forall s k, eval c fuel esc s e = Err k -> Inv s ->
   forall base stk escs caps its calls, code_at C base (compile_expr e base) ->
   errs (mkVm base stk s esc escs caps its calls) k.
 
-Ltac at_instr H := rewrite (step_at _ _ _ _ _ _ _ _ _ (code_at_head _ _ _ _ H)); cbn [exec_instr v_stk v_st v_esc].
+(* a failing macro call: either the call instruction itself fails (argument binding), or the macro's code does *)
+Definition err_call (fuel : nat) : Prop :=
+  forall esc s mc cl args kw k, call_macro c fuel esc s mc cl args kw = Err k ->
+  Inv s -> mok C mc -> Forall vok args -> kvok kw ->
+  forall pc X s0 r escs caps its calls,
+    call_macro_vm C (mkVm pc X s0 esc escs caps its calls) s r mc cl args kw = Err k \/
+    (exists σ1, call_macro_vm C (mkVm pc X s0 esc escs caps its calls) s r mc cl args kw = Ok σ1 /\ errs σ1 k).
+
+Definition err_list (fuel : nat) : Prop :=
+  forall inl l, forallb (l2_stmt inl) l = true ->
+  forall esc s k, exec_list c fuel esc s l = Err k -> Inv s ->
+  forall base lc stk escs caps its calls, code_at C base (compile_stmts l base lc) ->
+  (inl = true -> lc <> None) -> lc_fits lc (length (s_env s)) (length escs) (length caps) ->
+  errs (mkVm base stk s esc escs caps its calls) k.
+
+Definition err_stmt (fuel : nat) : Prop :=
+  forall inl t, l2_stmt inl t = true ->
+  forall esc s k, exec c fuel esc s t = Err k -> Inv s ->
+  forall base lc stk escs caps its calls, code_at C base (compile_stmt t base lc) ->
+  (inl = true -> lc <> None) -> lc_fits lc (length (s_env s)) (length escs) (length caps) ->
+  errs (mkVm base stk s esc escs caps its calls) k.
 
 (* a list of expressions: the first failing one fails the VM *)
 Lemma seq_err fuel esc items : eval_inv c C fuel ->
   (forall e, l2_expr e = true -> sim_expr c C fuel esc e) -> err_expr fuel ->
-  forallb l2_expr items = true -> forallb pure items = true ->
+  forallb l2_expr items = true ->
   forall s k, map_eval (eval c fuel esc) s items = Err k -> Inv s ->
   forall base stk escs caps its calls, code_at C base (seq_code compile_expr items base) ->
   errs (mkVm base stk s esc escs caps its calls) k.
 Proof.
-  intros EV SE IH. induction items as [|x r IHr]; intros Hw Hp s k He Hi base stk escs caps its calls Hc; [discriminate|].
-  cbn [forallb] in Hw, Hp. apply andb_prop in Hw as [Hx Hr]. apply andb_prop in Hp as [Px Pr].
+  intros EV SE IH. induction items as [|x r IHr]; intros Hw s k He Hi base stk escs caps its calls Hc; [discriminate|].
+  cbn [forallb] in Hw. apply andb_prop in Hw as [Hx Hr].
   cbn [map_eval] in He. fold (map_eval (eval c fuel esc)) in He.
   cbn [seq_code] in Hc. fold (@seq_code expr compile_expr) in Hc.
   destruct (eval c fuel esc s x) as [[v s1]| | |] eqn:Ex; cbn [bind] in He; try discriminate.
   - destruct (map_eval (eval c fuel esc) s1 r) as [[vr s2]| | |] eqn:Er; cbn [bind] in He; try discriminate.
     inversion He; subst. destruct (EV esc x Hx _ _ _ Hi Ex) as [_ I1].
     eapply errs_trans. { eapply (SE x Hx _ _ _ Ex Hi). eapply code_at_app_l; eauto. }
-    eapply (IHr Hr Pr _ _ Er I1). eapply code_at_app_r; eauto.
-  - inversion He; subst. eapply (IH esc x Hx Px _ _ Ex Hi). eapply code_at_app_l; eauto.
+    eapply (IHr Hr _ _ Er I1). eapply code_at_app_r; eauto.
+  - inversion He; subst. eapply (IH esc x Hx _ _ Ex Hi). eapply code_at_app_l; eauto.
 Qed.
 
 Lemma chain_err fuel esc rest : eval_inv c C fuel ->
   (forall e, l2_expr e = true -> sim_expr c C fuel esc e) -> err_expr fuel ->
-  forallb (fun p => l2_expr (snd p)) rest = true -> forallb (fun p => pure (snd p)) rest = true -> rest <> [] ->
+  forallb (fun p => l2_expr (snd p)) rest = true -> rest <> [] ->
   forall left s k, cmp_chain (c_mode c) (eval c fuel esc) left s rest = Err k -> Inv s ->
   forall pc cleanup stk escs caps its calls,
     code_at C pc (chain_code compile_expr rest pc cleanup) ->
     errs (mkVm pc (left :: stk) s esc escs caps its calls) k.
 Proof.
-  intros EV SE IH. induction rest as [|[op r] l' IHr]; intros Hw Hp Hne left s k He Hi pc cleanup stk escs caps its calls Hc; [congruence|].
-  cbn [forallb snd] in Hw, Hp. apply andb_prop in Hw as [Hr Hl']. apply andb_prop in Hp as [Pr Pl'].
+  intros EV SE IH. induction rest as [|[op r] l' IHr]; intros Hw Hne left s k He Hi pc cleanup stk escs caps its calls Hc; [congruence|].
+  cbn [forallb snd] in Hw. apply andb_prop in Hw as [Hr Hl'].
   cbn [cmp_chain] in He. fold (cmp_chain (c_mode c) (eval c fuel esc)) in He.
   cbn [chain_code] in Hc. fold (chain_code compile_expr) in Hc.
   destruct (eval c fuel esc s r) as [[y s2]| | |] eqn:Ey; cbn [bind] in He; try discriminate.
@@ -201,7 +237,7 @@ Proof.
       eapply errs_trans. { apply star_one. at_instr Hc. rewrite u_is_true_bool. reflexivity. }
       cbn [bind next v_pc v_stk v_st v_esc v_escs v_caps v_iters v_calls]. apply code_at_tail in Hc.
       replace (S (S (pc + length (compile_expr r pc)))) with (pc + length (compile_expr r pc) + 2) in * by lia.
-      eapply (IHr Hl' Pl' ltac:(discriminate) _ _ _ He I2). exact Hc.
+      eapply (IHr Hl' ltac:(discriminate) _ _ _ He I2). exact Hc.
     + (* the comparison itself fails *)
       inversion He; subst.
       destruct l' as [|p2 l''].
@@ -213,12 +249,135 @@ Proof.
         apply errs_here. at_instr Hc. rewrite Ed. reflexivity.
   - inversion He; subst.
     assert (Hcr : code_at C pc (compile_expr r pc)) by (destruct l'; eapply code_at_app_l; eauto).
-    eapply (IH esc r Hr Pr _ _ Ey Hi). exact Hcr.
+    eapply (IH esc r Hr _ _ Ey Hi). exact Hcr.
 Qed.
 
-Lemma err_expr_all : forall fuel, err_expr fuel.
+
+(* keyword arguments: literal ones never fail; the others fail like a list of expressions *)
+Lemma static_kw_noerr fuel esc kw : forall kv, static_kwargs kw = Some kv ->
+  forall s k, map_eval_kw (eval c fuel esc) s kw = Err k -> False.
 Proof.
-  induction fuel as [|fuel IH]; intros esc e Hw Hp s k He Hi base stk escs caps its calls Hc; [discriminate|].
+  induction kw as [|[k0 x] r IH]; intros kv Hs s k He; cbn [static_kwargs map_eval_kw] in *; [discriminate|].
+  fold (map_eval_kw (eval c fuel esc)) in He. destruct x; try discriminate.
+  destruct (static_kwargs r) as [kr|] eqn:Er; try discriminate.
+  destruct fuel as [|fuel']; [discriminate|]. rewrite eval_const in He. cbn [bind] in He.
+  destruct (map_eval_kw (eval c (S fuel') esc) s r) as [[vr s2]| | |] eqn:E2; cbn [bind] in He; try discriminate.
+  inversion He; subst. eapply IH; eauto.
+Qed.
+
+Lemma kw_dyn_err fuel esc kw : eval_inv c C fuel ->
+  (forall e, l2_expr e = true -> sim_expr c C fuel esc e) -> err_expr fuel ->
+  forallb (fun p => l2_expr (snd p)) kw = true ->
+  forall s k, map_eval_kw (eval c fuel esc) s kw = Err k -> Inv s ->
+  forall base stk escs caps its calls, code_at C base (kwargs_code compile_expr kw base) ->
+  errs (mkVm base stk s esc escs caps its calls) k.
+Proof.
+  intros EV SE IH. induction kw as [|[k0 x] r IHr]; intros Hw s k He Hi base stk escs caps its calls Hc; [discriminate|].
+  cbn [forallb snd] in Hw. apply andb_prop in Hw as [Hx Hr].
+  cbn [map_eval_kw] in He. fold (map_eval_kw (eval c fuel esc)) in He.
+  cbn [kwargs_code] in Hc. fold (kwargs_code compile_expr) in Hc.
+  eapply errs_trans. { apply star_one. at_instr Hc. reflexivity. } vmsimp.
+  apply code_at_tail in Hc. replace (S base) with (base + 1) in * by lia.
+  destruct (eval c fuel esc s x) as [[v s1]| | |] eqn:Ex; cbn [bind] in He; try discriminate.
+  - destruct (map_eval_kw (eval c fuel esc) s1 r) as [[vr s2]| | |] eqn:Er; cbn [bind] in He; try discriminate.
+    inversion He; subst. destruct (EV esc x Hx _ _ _ Hi Ex) as [_ I1].
+    eapply errs_trans. { eapply (SE x Hx _ _ _ Ex Hi). eapply code_at_app_l; eauto. }
+    eapply (IHr Hr _ _ Er I1). eapply code_at_app_r; eauto.
+  - inversion He; subst. eapply (IH esc x Hx _ _ Ex Hi). eapply code_at_app_l; eauto.
+Qed.
+
+(* the code of a call, and the run up to its CallFunction instruction when all arguments evaluate *)
+Definition call_code (f : name) (args : list expr) (kwargs : list (name * expr)) (base : nat) : list instr :=
+  let cargs := seq_code compile_expr args base in
+  match kwargs with
+  | [] => cargs ++ [ICallFunction f (length args)]
+  | _ :: _ => match static_kwargs kwargs with
+              | Some kv => cargs ++ [ILoadKwargs kv; ICallFunction f (length args + 1)]
+              | None => cargs ++ kwargs_code compile_expr kwargs (base + length cargs)
+                          ++ [IBuildKwargs (length kwargs); ICallFunction f (length args + 1)]
+              end
+  end.
+
+Lemma call_prefix fuel esc f args kwargs : eval_inv c C fuel ->
+  (forall e, l2_expr e = true -> sim_expr c C fuel esc e) ->
+  forallb l2_expr args = true -> forallb (fun p => l2_expr (snd p)) kwargs = true -> nodup_keys (map fst kwargs) = true ->
+  forall s vs s1 kvs s2, map_eval (eval c fuel esc) s args = Ok (vs, s1) -> map_eval_kw (eval c fuel esc) s1 kwargs = Ok (kvs, s2) -> Inv s ->
+  forall base stk escs caps its calls, code_at C base (call_code f args kwargs base) ->
+  exists pcall argc args0,
+    nth_error C pcall = Some (ICallFunction f argc) /\ pop_n argc (rev args0 ++ stk) [] = Some (args0, stk) /\
+    split_kwargs args0 = (vs, kvs) /\ S pcall = base + length (call_code f args kwargs base) /\
+    star (mkVm base stk s esc escs caps its calls) (mkVm pcall (rev args0 ++ stk) s2 esc escs caps its calls).
+Proof.
+  intros EV IH Hw1 Hw2 Hnd s vs s1 kvs s2 Em Ek Hi base stk escs caps its calls Hc.
+  destruct (map_eval_Inv C (eval c fuel esc) (fun e => l2_expr e = true) (EV esc) args (forallb_F _ _ Hw1) _ _ _ Hi Em) as [V1 I1].
+  pose proof (map_eval_length _ _ _ _ _ Em) as Hlen.
+  unfold call_code in Hc |- *.
+  set (cargs := seq_code compile_expr args base) in *.
+  set (whole := match kwargs with
+                | [] => cargs ++ [ICallFunction f (length args)]
+                | _ :: _ => match static_kwargs kwargs with
+                            | Some kv => cargs ++ [ILoadKwargs kv; ICallFunction f (length args + 1)]
+                            | None => cargs ++ kwargs_code compile_expr kwargs (base + length cargs)
+                                        ++ [IBuildKwargs (length kwargs); ICallFunction f (length args + 1)]
+                            end
+                end) in *.
+    { assert (S1 : forall X, code_at C base (cargs ++ X) ->
+                star (mkVm base stk s esc escs caps its calls) (mkVm (base + length cargs) (rev vs ++ stk) s1 esc escs caps its calls)).
+      { intros X HX. eapply (seq_sim fuel esc args EV IH Hw1 _ _ _ Em Hi). eapply code_at_app_l; eauto. }
+      subst whole. destruct kwargs as [|kw0 kwr].
+      - cbn in Ek. inversion Ek; subst kvs s2.
+        exists (base + length cargs), (length args), vs. repeat split.
+        + apply code_at_app_r in Hc. eapply code_at_head; eauto.
+        + rewrite <- Hlen. rewrite (pop_n_rev vs stk []). now rewrite app_nil_r.
+        + apply split_kwargs_plain, V1.
+        + rewrite app_length. cbn [length]. lia.
+        + eapply S1; eauto.
+      - pose proof (map_eval_kw_keys _ _ _ _ _ Ek) as Hkeys.
+        assert (Hnd' : nodup_keys (map fst kvs) = true) by (rewrite Hkeys; exact Hnd).
+        assert (Hpop : pop_n (length args + 1) (rev (vs ++ [kwargs_val kvs]) ++ stk) [] = Some (vs ++ [kwargs_val kvs], stk)).
+        { rewrite <- Hlen. replace (length vs + 1) with (length (vs ++ [kwargs_val kvs])) by (rewrite app_length; cbn [length]; lia).
+          rewrite (pop_n_rev (vs ++ [kwargs_val kvs]) stk []). now rewrite app_nil_r. }
+        destruct (static_kwargs (kw0 :: kwr)) as [kv|] eqn:Es.
+        + destruct (static_kw_eval fuel esc _ _ Es _ _ _ Ek) as [-> ->].
+          pose proof (S1 _ Hc) as S1'. apply code_at_app_r in Hc.
+          exists (S (base + length cargs)), (length args + 1), (vs ++ [kwargs_val kv]). repeat split.
+          * apply code_at_tail in Hc. eapply code_at_head; eauto.
+          * exact Hpop.
+          * apply split_kwargs_kw.
+          * rewrite app_length. cbn [length]. lia.
+          * eapply star_trans; [exact S1'|]. apply star_one.
+            rewrite (step_at _ _ _ _ _ _ _ _ _ (code_at_head _ _ _ _ Hc)). cbn [exec_instr v_stk v_st next v_pc v_esc v_escs v_caps v_iters v_calls].
+            rewrite (fold_assoc_nil kv Hnd'). rewrite rev_app_distr. cbn [rev app]. reflexivity.
+        + pose proof (S1 _ Hc) as S1'. apply code_at_app_r in Hc.
+          pose proof (kw_dyn_sim fuel esc (kw0 :: kwr) EV IH Hw2 _ _ _ Ek I1 (base + length cargs) (rev vs ++ stk) escs caps its calls
+                        ltac:(eapply code_at_app_l; eauto)) as S2.
+          apply code_at_app_r in Hc.
+          exists (S (base + length cargs + length (kwargs_code compile_expr (kw0 :: kwr) (base + length cargs)))), (length args + 1), (vs ++ [kwargs_val kvs]).
+          repeat split.
+          * apply code_at_tail in Hc. eapply code_at_head; eauto.
+          * exact Hpop.
+          * apply split_kwargs_kw.
+          * rewrite !app_length. cbn [length]. lia.
+          * eapply star_trans; [exact S1'|]. eapply star_trans; [exact S2|]. apply star_one.
+            rewrite (step_at _ _ _ _ _ _ _ _ _ (code_at_head _ _ _ _ Hc)). cbn [exec_instr v_stk v_st].
+            assert (Hl2 : 2 * length (kw0 :: kwr) = length (kw_flat kvs)).
+            { rewrite kw_flat_length. f_equal. rewrite <- (map_length fst kvs), Hkeys, map_length. reflexivity. }
+            rewrite Hl2, (pop_n_rev (kw_flat kvs) (rev vs ++ stk) []), app_nil_r, kw_of_vals_flat, (fold_assoc_nil kvs Hnd').
+            cbn [next v_pc v_esc v_escs v_caps v_iters v_calls]. rewrite rev_app_distr. cbn [rev app]. reflexivity. }
+Qed.
+
+
+Lemma call_code_eq f args kwargs base : as_const (ECall f args kwargs) = None ->
+  compile_expr (ECall f args kwargs) base = call_code f args kwargs base.
+Proof. intros H. cbn [compile_expr]. rewrite H. reflexivity. Qed.
+
+Lemma call_code_args f args kwargs base : exists X, call_code f args kwargs base = seq_code compile_expr args base ++ X.
+Proof. unfold call_code. destruct kwargs; [eexists; reflexivity|]. destruct (static_kwargs _); eexists; reflexivity. Qed.
+
+(* ---- expressions, one level up ---- *)
+Lemma expr_err_step fuel : err_expr fuel -> err_call fuel -> err_expr (S fuel).
+Proof.
+  intros IH IHcall esc e Hw s k He Hi base stk escs caps its calls Hc.
   destruct (inv_all c C Hcfg Hwf fuel) as (EV & _).
   destruct (sim_levels c C Hcfg Hwf fuel) as (SE & _).
   destruct (as_const e) as [v0|] eqn:Hf.
@@ -227,54 +386,54 @@ Proof.
             code_at C pc (compile_expr e0 pc ++ X) ->
             star (mkVm pc st0 s0 esc escs caps its calls) (mkVm (pc + length (compile_expr e0 pc)) (v0 :: st0) s1 esc escs caps its calls)).
   { intros e0 s0 v1 s1 X pc st0 H0 E0 I0 HX. eapply (SE esc e0 H0 _ _ _ E0 I0). eapply code_at_app_l; eauto. }
-  destruct e; cbn [compile_expr] in Hc; rewrite Hf in Hc; cbn [eval] in He; cbn [l2_expr] in Hw; cbn [pure] in Hp.
+  destruct e; cbn [compile_expr] in Hc; rewrite Hf in Hc; cbn [eval] in He; cbn [l2_expr] in Hw.
   - destruct l; discriminate.
   - destruct (lookup c s x); discriminate.
   - (* EList *)
     destruct (map_eval (eval c fuel esc) s items) as [[vs s1]| | |] eqn:Em; cbn [bind] in He; try discriminate.
-    inversion He; subst. eapply (seq_err fuel esc items EV (SE esc) IH Hw Hp _ _ Em Hi). eapply code_at_app_l; eauto.
+    inversion He; subst. eapply (seq_err fuel esc items EV (SE esc) IH Hw _ _ Em Hi). eapply code_at_app_l; eauto.
   - (* ENeg *)
     destruct (eval c fuel esc s e) as [[x s1]| | |] eqn:Ea; cbn [bind] in He; try discriminate.
     + eapply errs_trans; [exact (SUB e _ _ _ _ _ _ Hw Ea Hi Hc)|]. apply code_at_app_r in Hc.
       apply errs_here. at_instr Hc. destruct x; try discriminate; inversion He; reflexivity.
-    + inversion He; subst. eapply (IH esc e Hw Hp _ _ Ea Hi). eapply code_at_app_l; eauto.
+    + inversion He; subst. eapply (IH esc e Hw _ _ Ea Hi). eapply code_at_app_l; eauto.
   - (* ENot *)
     destruct (eval c fuel esc s e) as [[x s1]| | |] eqn:Ea; cbn [bind] in He; try discriminate.
     + eapply errs_trans; [exact (SUB e _ _ _ _ _ _ Hw Ea Hi Hc)|]. apply code_at_app_r in Hc.
       destruct (u_is_true (c_mode c) x) as [b| | |] eqn:Eb; cbn [bind] in He; try discriminate. inversion He; subst.
       apply errs_here. at_instr Hc. rewrite Eb. reflexivity.
-    + inversion He; subst. eapply (IH esc e Hw Hp _ _ Ea Hi). eapply code_at_app_l; eauto.
+    + inversion He; subst. eapply (IH esc e Hw _ _ Ea Hi). eapply code_at_app_l; eauto.
   - (* EBin *)
-    apply andb_prop in Hw as [Hw1 Hw2]. apply andb_prop in Hp as [Hp1 Hp2].
+    apply andb_prop in Hw as [Hw1 Hw2]. 
     destruct (eval c fuel esc s e1) as [[x s1]| | |] eqn:Ea; cbn [bind] in He; try discriminate;
-      [|inversion He; subst; eapply (IH esc e1 Hw1 Hp1 _ _ Ea Hi); eapply code_at_app_l; eauto].
+      [|inversion He; subst; eapply (IH esc e1 Hw1 _ _ Ea Hi); eapply code_at_app_l; eauto].
     destruct (EV esc e1 Hw1 _ _ _ Hi Ea) as [_ I1].
     eapply errs_trans; [exact (SUB e1 _ _ _ _ _ _ Hw1 Ea Hi Hc)|]. apply code_at_app_r in Hc.
     destruct (eval c fuel esc s1 e2) as [[y s2]| | |] eqn:Eb; cbn [bind] in He; try discriminate;
-      [|inversion He; subst; eapply (IH esc e2 Hw2 Hp2 _ _ Eb I1); eapply code_at_app_l; eauto].
+      [|inversion He; subst; eapply (IH esc e2 Hw2 _ _ Eb I1); eapply code_at_app_l; eauto].
     eapply errs_trans; [exact (SUB e2 _ _ _ _ _ _ Hw2 Eb I1 Hc)|]. apply code_at_app_r in Hc.
     apply errs_here. at_instr Hc.
     match type of He with bind ?g _ = _ => destruct g as [[]| | |] eqn:G; cbn [bind] in He |- *; try discriminate end.
     + destruct (do_bin op x y) as [r| | |] eqn:Ed; cbn [bind] in He; try discriminate. inversion He; reflexivity.
     + inversion He; reflexivity.
   - (* ECmp *)
-    apply andb_prop in Hw as [Hw Hw3]. apply andb_prop in Hw as [Hw1 Hw2]. apply andb_prop in Hp as [Hp1 Hp3].
+    apply andb_prop in Hw as [Hw Hw3]. apply andb_prop in Hw as [Hw1 Hw2]. 
     destruct (eval c fuel esc s e) as [[x s1]| | |] eqn:Ea; cbn [bind] in He; try discriminate;
-      [|inversion He; subst; eapply (IH esc e Hw1 Hp1 _ _ Ea Hi);
+      [|inversion He; subst; eapply (IH esc e Hw1 _ _ Ea Hi);
         destruct rest as [|[op b] [|p2 r2]]; [exact Hc|eapply code_at_app_l; eauto|eapply code_at_app_l; eauto]].
     destruct (EV esc e Hw1 _ _ _ Hi Ea) as [_ I1].
     destruct rest as [|[op b] rest']; [discriminate|].
     destruct rest' as [|p2 rest''].
     + eapply errs_trans; [exact (SUB e _ _ _ _ _ _ Hw1 Ea Hi Hc)|]. apply code_at_app_r in Hc.
-      eapply (chain_err fuel esc [(op, b)] EV (SE esc) IH Hw3 Hp3 ltac:(discriminate) _ _ _ He I1 _ 0).
+      eapply (chain_err fuel esc [(op, b)] EV (SE esc) IH Hw3 ltac:(discriminate) _ _ _ He I1 _ 0).
       cbn [chain_code]. exact Hc.
     + eapply errs_trans; [exact (SUB e _ _ _ _ _ _ Hw1 Ea Hi Hc)|]. apply code_at_app_r in Hc.
-      eapply (chain_err fuel esc _ EV (SE esc) IH Hw3 Hp3 ltac:(discriminate) _ _ _ He I1).
+      eapply (chain_err fuel esc _ EV (SE esc) IH Hw3 ltac:(discriminate) _ _ _ He I1).
       eapply code_at_app_l; eauto.
   - (* EAnd *)
-    apply andb_prop in Hw as [Hw1 Hw2]. apply andb_prop in Hp as [Hp1 Hp2].
+    apply andb_prop in Hw as [Hw1 Hw2]. 
     destruct (eval c fuel esc s e1) as [[x s1]| | |] eqn:Ea; cbn [bind] in He; try discriminate;
-      [|inversion He; subst; eapply (IH esc e1 Hw1 Hp1 _ _ Ea Hi); eapply code_at_app_l; eauto].
+      [|inversion He; subst; eapply (IH esc e1 Hw1 _ _ Ea Hi); eapply code_at_app_l; eauto].
     destruct (EV esc e1 Hw1 _ _ _ Hi Ea) as [_ I1].
     eapply errs_trans; [exact (SUB e1 _ _ _ _ _ _ Hw1 Ea Hi Hc)|]. apply code_at_app_r in Hc.
     destruct (u_is_true (c_mode c) x) as [t| | |] eqn:Et; cbn [bind] in He; try discriminate.
@@ -282,12 +441,12 @@ Proof.
       eapply errs_trans. { apply star_one. at_instr Hc. rewrite Et. reflexivity. }
       cbn [bind next v_pc v_stk v_st v_esc v_escs v_caps v_iters v_calls]. apply code_at_tail in Hc.
       replace (S (base + length (compile_expr e1 base))) with (base + length (compile_expr e1 base) + 1) in * by lia.
-      eapply (IH esc e2 Hw2 Hp2 _ _ He I1). exact Hc.
+      eapply (IH esc e2 Hw2 _ _ He I1). exact Hc.
     + inversion He; subst. apply errs_here. at_instr Hc. rewrite Et. reflexivity.
   - (* EOr *)
-    apply andb_prop in Hw as [Hw1 Hw2]. apply andb_prop in Hp as [Hp1 Hp2].
+    apply andb_prop in Hw as [Hw1 Hw2]. 
     destruct (eval c fuel esc s e1) as [[x s1]| | |] eqn:Ea; cbn [bind] in He; try discriminate;
-      [|inversion He; subst; eapply (IH esc e1 Hw1 Hp1 _ _ Ea Hi); eapply code_at_app_l; eauto].
+      [|inversion He; subst; eapply (IH esc e1 Hw1 _ _ Ea Hi); eapply code_at_app_l; eauto].
     destruct (EV esc e1 Hw1 _ _ _ Hi Ea) as [_ I1].
     eapply errs_trans; [exact (SUB e1 _ _ _ _ _ _ Hw1 Ea Hi Hc)|]. apply code_at_app_r in Hc.
     destruct (u_is_true (c_mode c) x) as [t| | |] eqn:Et; cbn [bind] in He; try discriminate.
@@ -295,13 +454,13 @@ Proof.
       eapply errs_trans. { apply star_one. at_instr Hc. rewrite Et. reflexivity. }
       cbn [bind next v_pc v_stk v_st v_esc v_escs v_caps v_iters v_calls]. apply code_at_tail in Hc.
       replace (S (base + length (compile_expr e1 base))) with (base + length (compile_expr e1 base) + 1) in * by lia.
-      eapply (IH esc e2 Hw2 Hp2 _ _ He I1). exact Hc.
+      eapply (IH esc e2 Hw2 _ _ He I1). exact Hc.
     + inversion He; subst. apply errs_here. at_instr Hc. rewrite Et. reflexivity.
   - (* EIf *)
     apply andb_prop in Hw as [Hw Hw3]. apply andb_prop in Hw as [Hw1 Hw2].
-    apply andb_prop in Hp as [Hp Hp3]. apply andb_prop in Hp as [Hp1 Hp2].
+    
     destruct (eval c fuel esc s e1) as [[x s1]| | |] eqn:Ea; cbn [bind] in He; try discriminate;
-      [|inversion He; subst; eapply (IH esc e1 Hw1 Hp1 _ _ Ea Hi); eapply code_at_app_l; eauto].
+      [|inversion He; subst; eapply (IH esc e1 Hw1 _ _ Ea Hi); eapply code_at_app_l; eauto].
     destruct (EV esc e1 Hw1 _ _ _ Hi Ea) as [_ I1].
     eapply errs_trans; [exact (SUB e1 _ _ _ _ _ _ Hw1 Ea Hi Hc)|]. apply code_at_app_r in Hc.
     destruct (u_is_true (c_mode c) x) as [t| | |] eqn:Et; cbn [bind] in He; try discriminate;
@@ -312,56 +471,183 @@ Proof.
     + eapply errs_trans. { apply star_one. rewrite (step_at _ _ _ _ _ _ _ _ _ Hj). cbn [exec_instr v_stk v_st]. rewrite Et. reflexivity. }
       cbn [bind next v_pc v_stk v_st v_esc v_escs v_caps v_iters v_calls].
       replace (S (base + length (compile_expr e1 base))) with (base + length (compile_expr e1 base) + 1) by lia.
-      eapply (IH esc e2 Hw2 Hp2 _ _ He I1). eapply code_at_app_l. exact Hc.
+      eapply (IH esc e2 Hw2 _ _ He I1). eapply code_at_app_l. exact Hc.
     + eapply errs_trans. { apply star_one. rewrite (step_at _ _ _ _ _ _ _ _ _ Hj). cbn [exec_instr v_stk v_st]. rewrite Et. reflexivity. }
       cbn [bind goto v_pc v_stk v_st v_esc v_escs v_caps v_iters v_calls].
       destruct f as [f|]; [|discriminate].
-      eapply (IH esc f Hw3 Hp3 _ _ He I1). apply code_at_app_r in Hc. apply code_at_tail in Hc.
+      eapply (IH esc f Hw3 _ _ He I1). apply code_at_app_r in Hc. apply code_at_tail in Hc.
       eapply code_at_pc; [exact Hc|lia].
   - (* EItem *)
-    apply andb_prop in Hw as [Hw1 Hw2]. apply andb_prop in Hp as [Hp1 Hp2].
+    apply andb_prop in Hw as [Hw1 Hw2]. 
     destruct (eval c fuel esc s e1) as [[x s1]| | |] eqn:Ea; cbn [bind] in He; try discriminate;
-      [|inversion He; subst; eapply (IH esc e1 Hw1 Hp1 _ _ Ea Hi); eapply code_at_app_l; eauto].
+      [|inversion He; subst; eapply (IH esc e1 Hw1 _ _ Ea Hi); eapply code_at_app_l; eauto].
     destruct (EV esc e1 Hw1 _ _ _ Hi Ea) as [_ I1].
     eapply errs_trans; [exact (SUB e1 _ _ _ _ _ _ Hw1 Ea Hi Hc)|]. apply code_at_app_r in Hc.
     destruct (eval c fuel esc s1 e2) as [[y s2]| | |] eqn:Eb; cbn [bind] in He; try discriminate;
-      [|inversion He; subst; eapply (IH esc e2 Hw2 Hp2 _ _ Eb I1); eapply code_at_app_l; eauto].
+      [|inversion He; subst; eapply (IH esc e2 Hw2 _ _ Eb I1); eapply code_at_app_l; eauto].
     eapply errs_trans; [exact (SUB e2 _ _ _ _ _ _ Hw2 Eb I1 Hc)|]. apply code_at_app_r in Hc.
     apply errs_here. at_instr Hc. unfold get_item.
     destruct (match x, y with VList l, VInt z => idx_list l z | _, _ => None end); [discriminate|].
     destruct (u_handle_undefined (c_mode c) (is_undef x)); cbn [bind] in He |- *; try discriminate. inversion He; reflexivity.
   - (* EAttr *)
     destruct (eval c fuel esc s e) as [[x s1]| | |] eqn:Ea; cbn [bind] in He; try discriminate;
-      [|inversion He; subst; eapply (IH esc e Hw Hp _ _ Ea Hi); eapply code_at_app_l; eauto].
+      [|inversion He; subst; eapply (IH esc e Hw _ _ Ea Hi); eapply code_at_app_l; eauto].
     eapply errs_trans; [exact (SUB e _ _ _ _ _ _ Hw Ea Hi Hc)|]. apply code_at_app_r in Hc.
     apply errs_here. at_instr Hc. unfold get_attr.
     destruct (match x with VLoop i n => loop_attr i n a | _ => None end); [discriminate|].
     destruct (u_handle_undefined (c_mode c) (is_undef x)); cbn [bind] in He |- *; try discriminate. inversion He; reflexivity.
   - (* EFilter *)
-    apply andb_prop in Hw as [Hw1 Hw2]. apply andb_prop in Hp as [Hp1 Hp2].
+    apply andb_prop in Hw as [Hw1 Hw2]. 
     destruct (eval c fuel esc s e) as [[x s1]| | |] eqn:Ea; cbn [bind] in He; try discriminate;
-      [|inversion He; subst; eapply (IH esc e Hw1 Hp1 _ _ Ea Hi); eapply code_at_app_l; eauto].
+      [|inversion He; subst; eapply (IH esc e Hw1 _ _ Ea Hi); eapply code_at_app_l; eauto].
     destruct (EV esc e Hw1 _ _ _ Hi Ea) as [_ I1].
     eapply errs_trans; [exact (SUB e _ _ _ _ _ _ Hw1 Ea Hi Hc)|]. apply code_at_app_r in Hc.
     destruct (map_eval (eval c fuel esc) s1 args) as [[vs s2]| | |] eqn:Em; cbn [bind] in He; try discriminate;
-      [|inversion He; subst; eapply (seq_err fuel esc args EV (SE esc) IH Hw2 Hp2 _ _ Em I1); eapply code_at_app_l; eauto].
-    eapply errs_trans. { eapply (seq_sim c C fuel esc args EV (SE esc) Hw2 _ _ _ Em I1). eapply code_at_app_l; eauto. }
+      [|inversion He; subst; eapply (seq_err fuel esc args EV (SE esc) IH Hw2 _ _ Em I1); eapply code_at_app_l; eauto].
+    eapply errs_trans. { eapply (seq_sim fuel esc args EV (SE esc) Hw2 _ _ _ Em I1). eapply code_at_app_l; eauto. }
     apply code_at_app_r in Hc. apply errs_here. at_instr Hc.
     rewrite <- (map_eval_length _ _ _ _ _ Em), pop_args.
     destruct (do_filter (c_mode c) esc f x vs); cbn [bind] in He |- *; try discriminate. inversion He; reflexivity.
   - (* ETest *)
-    apply andb_prop in Hw as [Hw1 Hw2]. apply andb_prop in Hp as [Hp1 Hp2].
+    apply andb_prop in Hw as [Hw1 Hw2]. 
     destruct (eval c fuel esc s e) as [[x s1]| | |] eqn:Ea; cbn [bind] in He; try discriminate;
-      [|inversion He; subst; eapply (IH esc e Hw1 Hp1 _ _ Ea Hi); eapply code_at_app_l; eauto].
+      [|inversion He; subst; eapply (IH esc e Hw1 _ _ Ea Hi); eapply code_at_app_l; eauto].
     destruct (EV esc e Hw1 _ _ _ Hi Ea) as [_ I1].
     eapply errs_trans; [exact (SUB e _ _ _ _ _ _ Hw1 Ea Hi Hc)|]. apply code_at_app_r in Hc.
     destruct (map_eval (eval c fuel esc) s1 args) as [[vs s2]| | |] eqn:Em; cbn [bind] in He; try discriminate;
-      [|inversion He; subst; eapply (seq_err fuel esc args EV (SE esc) IH Hw2 Hp2 _ _ Em I1); eapply code_at_app_l; eauto].
-    eapply errs_trans. { eapply (seq_sim c C fuel esc args EV (SE esc) Hw2 _ _ _ Em I1). eapply code_at_app_l; eauto. }
+      [|inversion He; subst; eapply (seq_err fuel esc args EV (SE esc) IH Hw2 _ _ Em I1); eapply code_at_app_l; eauto].
+    eapply errs_trans. { eapply (seq_sim fuel esc args EV (SE esc) Hw2 _ _ _ Em I1). eapply code_at_app_l; eauto. }
     apply code_at_app_r in Hc. apply errs_here. at_instr Hc.
     rewrite <- (map_eval_length _ _ _ _ _ Em), pop_args.
     destruct (do_test t x); cbn [bind] in He |- *; try discriminate. inversion He; reflexivity.
-  - discriminate.
+  - (* ECall *)
+    apply andb_prop in Hw as [Hw Hnd]. apply andb_prop in Hw as [Hw1 Hw2].
+    change (code_at C base (call_code f args kwargs base)) in Hc.
+    destruct (call_code_args f args kwargs base) as [X HX].
+    assert (Hca : code_at C base (seq_code compile_expr args base)) by (rewrite HX in Hc; eapply code_at_app_l; eauto).
+    destruct (map_eval (eval c fuel esc) s args) as [[vs s1]| | |] eqn:Em; cbn [bind] in He; try discriminate;
+      [|inversion He; subst; exact (seq_err fuel esc args EV (SE esc) IH Hw1 _ _ Em Hi _ _ _ _ _ _ Hca)].
+    destruct (map_eval_Inv C (eval c fuel esc) (fun e => l2_expr e = true) (EV esc) args (forallb_F _ _ Hw1) _ _ _ Hi Em) as [V1 I1].
+    destruct (map_eval_kw (eval c fuel esc) s1 kwargs) as [[kvs s2]| | |] eqn:Ek; cbn [bind] in He; try discriminate.
+    2: { inversion He; subst. destruct kwargs as [|kw0 kwr]; [discriminate|].
+         unfold call_code in Hc. destruct (static_kwargs (kw0 :: kwr)) as [kv|] eqn:Es.
+         - exfalso. eapply static_kw_noerr; eauto.
+         - eapply errs_trans. { eapply (seq_sim fuel esc args EV (SE esc) Hw1 _ _ _ Em Hi). exact Hca. }
+           apply code_at_app_r in Hc.
+           eapply (kw_dyn_err fuel esc (kw0 :: kwr) EV (SE esc) IH Hw2 _ _ Ek I1). eapply code_at_app_l; eauto. }
+    destruct (map_eval_kw_Inv C (eval c fuel esc) (fun e => l2_expr e = true) (EV esc) kwargs (forallb_F _ _ Hw2) _ _ _ I1 Ek) as [V2 I2].
+    destruct (lookup c s2 f) as [fv s3] eqn:El.
+    destruct (lookup_ok c C Hcfg _ _ _ _ I2 El) as [Vf I3].
+    destruct (call_prefix fuel esc f args kwargs EV (SE esc) Hw1 Hw2 Hnd _ _ _ _ _ Em Ek Hi base stk escs caps its calls Hc)
+      as (pcall & argc & args0 & Hn & Hpop & Hsp & Hend & S12).
+    eapply errs_trans; [exact S12|].
+    destruct fv as [[| | | | | | |mc cl| |g]|];
+      try (apply errs_here; rewrite (step_at _ _ _ _ _ _ _ _ _ Hn); cbn [exec_instr v_stk v_st]; rewrite Hpop, Hsp, El; inversion He; reflexivity).
+    2: { apply errs_here. rewrite (step_at _ _ _ _ _ _ _ _ _ Hn). cbn [exec_instr v_stk v_st]. rewrite Hpop, Hsp, El.
+         destruct (g =? N_range)%Z; [|inversion He; reflexivity].
+         destruct vs as [|[| | | |n| | | | |] [|? ?]]; try (inversion He; reflexivity).
+         destruct kvs; [discriminate|inversion He; reflexivity]. }
+    destruct (IHcall esc s3 mc cl vs kvs k He I3 Vf V1 V2 pcall (rev args0 ++ stk) s2 stk escs caps its calls) as [Hvm|(σ1 & Hvm & Herr)].
+    + apply errs_here. rewrite (step_at _ _ _ _ _ _ _ _ _ Hn). cbn [exec_instr v_stk v_st]. rewrite Hpop, Hsp, El. exact Hvm.
+    + eapply errs_trans; [|exact Herr]. apply star_one.
+      rewrite (step_at _ _ _ _ _ _ _ _ _ Hn). cbn [exec_instr v_stk v_st]. rewrite Hpop, Hsp, El. exact Hvm.
 Qed.
 
-End Err.
+
+(* ---- macro calls ---- *)
+Lemma args_err fuel esc defaults : eval_inv c C fuel ->
+  (forall e, l2_expr e = true -> sim_expr c C fuel esc e) -> err_expr fuel ->
+  forallb (fun p => l2_expr (snd p)) defaults = true ->
+  forall bl s k, store_args (eval c fuel esc) defaults s bl = Err k -> Inv s -> kvok bl ->
+  forall pc stk escs caps its calls, code_at C pc (params_code defaults (map fst bl) pc) ->
+  errs (mkVm pc (map snd bl ++ stk) s esc escs caps its calls) k.
+Proof.
+  intros EV SE IH Hd. induction bl as [|[p v] r IHr]; intros s k He Hi Hb pc stk escs caps its calls Hc; [discriminate|].
+  cbn [store_args] in He. fold (store_args (eval c fuel esc) defaults) in He.
+  inversion Hb as [|? ? Hv Hbr]; subst. cbn [snd] in Hv.
+  cbn [map fst snd params_code app] in Hc |- *. fold (params_code defaults) in Hc |- *.
+  rewrite default_of_assoc in Hc.
+  destruct (assoc p defaults) as [d|] eqn:Ea.
+  - assert (Hld : l2_expr d = true).
+    { clear -Hd Ea. induction defaults as [|[k0 x] l IHd]; cbn [assoc forallb snd] in *; [discriminate|].
+      apply andb_prop in Hd as [H1 H2]. destruct (p =? k0)%Z; [inversion Ea; subst; exact H1|auto]. }
+    set (cd := compile_expr d (pc + 4)) in *.
+    pose proof (code_at_head _ _ _ _ Hc) as H0. pose proof (code_at_tail _ _ _ _ Hc) as Hc1.
+    pose proof (code_at_head _ _ _ _ Hc1) as H1. pose proof (code_at_tail _ _ _ _ Hc1) as Hc2.
+    pose proof (code_at_head _ _ _ _ Hc2) as H2. pose proof (code_at_tail _ _ _ _ Hc2) as Hc3.
+    pose proof (code_at_head _ _ _ _ Hc3) as H3. pose proof (code_at_tail _ _ _ _ Hc3) as Hc4.
+    replace (S (S (S (S pc)))) with (pc + 4) in Hc4 by lia.
+    pose proof (code_at_app_l _ _ _ _ Hc4) as Hcd. apply code_at_app_r in Hc4. fold cd in Hc4.
+    pose proof (code_at_head _ _ _ _ Hc4) as Hst. apply code_at_tail in Hc4.
+    replace (S (pc + 4 + length cd)) with (pc + 4 + length cd + 1) in Hc4 by lia.
+    eapply errs_trans. { apply star_one. rewrite (step_at _ _ _ _ _ _ _ _ _ H0). reflexivity. } vmsimp.
+    eapply errs_trans. { apply star_one. rewrite (step_at _ _ _ _ _ _ _ _ _ H1). reflexivity. } vmsimp.
+    destruct (is_undef v) eqn:Eu.
+    + eapply errs_trans. { apply star_one. rewrite (step_at _ _ _ _ _ _ _ _ _ H2). cbn [exec_instr v_stk v_st]. rewrite u_is_true_bool. reflexivity. }
+      vmsimp.
+      eapply errs_trans. { apply star_one. rewrite (step_at _ _ _ _ _ _ _ _ _ H3). reflexivity. } vmsimp.
+      replace (S (S (S (S pc)))) with (pc + 4) by lia.
+      destruct (eval c fuel esc s d) as [[dv s1]| | |] eqn:E1; cbn [bind] in He; try discriminate.
+      * destruct (EV esc d Hld _ _ _ Hi E1) as [Vd I1].
+        eapply errs_trans. { eapply (SE d Hld _ _ _ E1 Hi). exact Hcd. }
+        fold cd.
+        eapply errs_trans. { apply star_one. rewrite (step_at _ _ _ _ _ _ _ _ _ Hst). reflexivity. } vmsimp.
+        replace (S (pc + 4 + length cd)) with (pc + 4 + length cd + 1) by lia.
+        eapply (IHr _ _ He); [apply store_Inv; auto|exact Hbr|exact Hc4].
+      * inversion He; subst. eapply (IH esc d Hld _ _ E1 Hi). exact Hcd.
+    + eapply errs_trans. { apply star_one. rewrite (step_at _ _ _ _ _ _ _ _ _ H2). cbn [exec_instr v_stk v_st]. rewrite u_is_true_bool. reflexivity. }
+      vmsimp.
+      eapply errs_trans. { apply star_one. rewrite (step_at _ _ _ _ _ _ _ _ _ Hst). reflexivity. } vmsimp.
+      replace (S (pc + 4 + length cd)) with (pc + 4 + length cd + 1) by lia.
+      eapply (IHr _ _ He); [apply store_Inv; auto|exact Hbr|exact Hc4].
+  - assert (He' : store_args (eval c fuel esc) defaults (store s p v) r = Err k) by (destruct (is_undef v); exact He).
+    eapply errs_trans. { apply star_one. rewrite (step_at _ _ _ _ _ _ _ _ _ (code_at_head _ _ _ _ Hc)). reflexivity. } vmsimp.
+    apply code_at_tail in Hc. replace (S pc) with (pc + 1) in * by lia.
+    eapply (IHr _ _ He'); [apply store_Inv; auto|exact Hbr|exact Hc].
+Qed.
+
+Lemma call_err_step fuel : err_expr fuel -> err_list fuel -> err_call (S fuel).
+Proof.
+  intros IHe IHl esc s mc cl args kw k He Hi Hm Ha Hk pc X s0 r escs caps its calls.
+  destruct (inv_all c C Hcfg Hwf fuel) as (EV & _ & _ & LV).
+  destruct (sim_levels c C Hcfg Hwf fuel) as (SE & _ & _ & SL).
+  cbn [call_macro] in He. unfold call_macro_vm. cbn [v_pc v_esc v_escs v_caps v_iters v_calls].
+  destruct (Nat.ltb (length (m_params mc)) (length args)); [left; inversion He; reflexivity|].
+  destruct (bind_params kw (m_params mc) args) as [bnd| | |] eqn:Eb; cbn [bind] in He |- *; try discriminate;
+    [|left; inversion He; reflexivity].
+  match type of He with (if ?b then _ else _) = _ => destruct b; [left; inversion He; reflexivity|] end.
+  destruct (macro_offset_ok C Hwf mc Hm) as (off & Ho & Hcode). rewrite Ho.
+  right. eexists. split; [reflexivity|].
+  destruct Hm as (Md & Mb & Mc).
+  pose proof (bind_params_ok C kw Hk _ _ _ Ha Eb) as Hbound.
+  pose proof (bind_params_fst _ _ _ _ Eb) as Hfst.
+  set (caller_v := match assoc N_caller kw with Some v => v | None => VUndef end) in *.
+  assert (Vc : vok caller_v) by (unfold caller_v; destruct (assoc N_caller kw) eqn:Ea; [exact (assoc_ok C _ _ _ Hk Ea)|exact I]).
+  set (sm0 := mkSt [mkFrame (if m_caller mc then [(N_caller, caller_v)] else []) None None cl false; base_frame] (s_clos s) [] (s_asks s)) in *.
+  assert (I0 : Inv sm0).
+  { destruct Hi as [_ Hic]. split; cbn [s_env s_clos]; [|exact Hic]. constructor; [|constructor; [constructor|constructor]].
+    cbn [f_locals]. destruct (m_caller mc); repeat constructor; exact Vc. }
+  assert (Hbr : kvok (rev bnd)) by (apply Forall_rev; exact Hbound).
+  unfold mcode in Hcode. set (cp := params_code (m_defaults mc) (rev (m_params mc)) off) in *.
+  assert (Hcp : code_at C off (params_code (m_defaults mc) (map fst (rev bnd)) off)).
+  { rewrite map_rev, Hfst. eapply code_at_app_l; eauto. }
+  match type of He with bind ?x _ = _ => destruct x as [s1|k1| |] eqn:E1; cbn [bind] in He; try discriminate end.
+  - change (store_args (eval c fuel esc) (m_defaults mc) sm0 (rev bnd) = Ok s1) in E1.
+    assert (I1 : Inv s1).
+    { eapply (store_args_Inv C (eval c fuel esc) (fun e => l2_expr e = true) (EV esc) (m_defaults mc)); [apply forallb_F; exact Md|exact Hbr|exact I0|exact E1]. }
+    pose proof (args_sim fuel esc (m_defaults mc) EV (SE esc) Md _ _ _ E1 I0 Hbr off [] [] [] [] (mkCall (S pc) r (s_env s) (s_out s) esc escs caps its :: calls) Hcp) as S1.
+    rewrite !map_rev, Hfst in S1. fold cp in S1. rewrite app_nil_r in S1.
+    apply code_at_app_r in Hcode. fold cp in Hcode.
+    match type of He with bind ?x _ = _ => destruct x as [[sg s2]|k2| |] eqn:E2; cbn [bind] in He; try discriminate end.
+    change (exec_list c fuel esc s1 (m_body mc) = Err k2) in E2.
+    inversion He; subst.
+    eapply errs_trans; [exact S1|].
+    eapply (IHl false (m_body mc) Mb _ _ _ E2 I1 (off + length cp) None [] [] [] [] _
+              ltac:(eapply code_at_app_l; eauto) ltac:(discriminate) I).
+  - change (store_args (eval c fuel esc) (m_defaults mc) sm0 (rev bnd) = Err k1) in E1.
+    inversion He; subst.
+    pose proof (args_err fuel esc (m_defaults mc) EV (SE esc) IHe Md _ _ _ E1 I0 Hbr off [] [] [] [] (mkCall (S pc) r (s_env s) (s_out s) esc escs caps its :: calls) Hcp) as S1.
+    rewrite !map_rev, app_nil_r in S1. exact S1.
+Qed.
+
+End ErrAll.
